@@ -179,7 +179,7 @@ func c03Case(t *core.T, calls int) {
 		}
 		// sometimes create a pending parent paying this wallet
 		if t.R.Chance(20) {
-			for _, o := range v.Outs {
+			for _, o := range v.SortedOuts() {
 				if !o.Spent && o.HasHash && !k.Owned[o.Hash] && o.Class == sim.ClassStd && v.Mature(o) && o.Value > 100000 {
 					used := false
 					for _, po := range pendingOuts {
@@ -201,7 +201,7 @@ func c03Case(t *core.T, calls int) {
 			}
 		}
 		var own []*sim.Out
-		for _, o := range v.Outs {
+		for _, o := range v.SortedOuts() {
 			if !o.Spent && o.HasHash && k.Owned[o.Hash] && o.Value > 0 {
 				own = append(own, o)
 			}
